@@ -27,4 +27,56 @@ func init() {
 		},
 		TrustedBase: []string{stdTrusted, "the environment stubs in gosym/stubs.go (os, io/ioutil, fmt.Println/Fprintf, errors.Is)"},
 	})
+
+	stubAssume := []string{
+		"json.Decoder.Decode, ld.JsonLdProcessor.Flatten, rego.New(...).PrepareForEval and PreparedEvalQuery.Eval are nondeterministic stubs: each call either fails or succeeds (symbolic fault flag per call); Eval returns a fresh result map per call (OPA's contract)",
+		"profile parsing and Rego generation run as real code on concrete profile texts (yaml.v3 natively on the concrete text)",
+		"time.Now returns arbitrary non-decreasing instants below 2^40 ns",
+	}
+	reg(&PropertySpec{
+		ID: "C04", Level: "model_checking",
+		Rule: "one state = one feasible path through the real entry-point glue (validate.go, process_input.go, normalizer.go, report.go) for one entry point and one assignment of the symbolic fault flags; all paths are distinct",
+		Harnesses: func(tier string) []HarnessSpec {
+			return []HarnessSpec{{Pkg: "internal/validator", Fn: "VerifC04Entry", Native: "VerifC04EntryNative", Reach: []string{"decode-failed", "flatten-failed", "ok-path"},
+				Bounds: map[string]any{"entry_points": 4, "fault_flags": "decode, flatten, compile, eval error, empty result"}}}
+		},
+		Assumptions: append([]string{"which byte strings make encoding/json or json-gold fail is their business: the fault is a symbolic flag; native replay uses the witnesses `#%RAML…` (not JSON) and {\"@context\": 42} (rejected by JSON-LD)"}, stubAssume...),
+		TrustedBase: []string{stdTrusted, "stubs in gosym/stubs.go"},
+	})
+	reg(&PropertySpec{
+		ID: "C09", Level: "model_checking",
+		Rule: "one state = one feasible path of a history (source vs compiled; three calls through one compiled profile) under one assignment of per-call stub outcomes",
+		Harnesses: func(tier string) []HarnessSpec {
+			return []HarnessSpec{
+				{Pkg: "internal/validator", Fn: "VerifC09Equiv", Reach: []string{"compile-failed", "validated-both"}, Bounds: map[string]any{"runs": 2}},
+				{Pkg: "internal/validator", Fn: "VerifC09History", Reach: []string{"validated-3"}, Bounds: map[string]any{"history_length": 3}},
+			}
+		},
+		Assumptions: append([]string{"OPA compile/eval are functions of (module text modulo renumbering of generated identifiers, input); a PreparedEvalQuery is immutable under Eval (dependency contract)", "histories of length 3; call 3 repeats call 1's stub outcomes"}, stubAssume...),
+		TrustedBase: []string{stdTrusted, "stubs in gosym/stubs.go", "write tracking of package-level state in gosym/rt.go"},
+	})
+	reg(&PropertySpec{
+		ID: "C11", Level: "model_checking",
+		Rule: "one state = one feasible path for one entry point x one profile text (valid / YAML error / structure error) x one assignment of the symbolic stage-fault flags; the channel is a buffered Go channel executed natively by the interpreter",
+		Harnesses: func(tier string) []HarnessSpec {
+			return []HarnessSpec{
+				{Pkg: "pkg", Fn: "VerifC11Events", Native: "VerifC11EventsNative", Reach: []string{"returned", "compile-ok", "compile-failed", "ends-in-start"}, Bounds: map[string]any{"entry_points": 5, "profiles": 3}},
+				{Pkg: "pkg", Fn: "VerifC11NilChannel", Reach: []string{"returned"}},
+			}
+		},
+		Assumptions: append([]string{"the event channel has capacity for all events (the executor is single-threaded; a send that would block is reported as BLOCK:send)", "weak reading of 'one milestone per completed stage': RegoCompilation has events but no milestone operation"}, stubAssume...),
+		TrustedBase: []string{stdTrusted, "stubs in gosym/stubs.go"},
+	})
+	reg(&PropertySpec{
+		ID: "C03", Level: "model_checking",
+		Rule: "one state = one feasible path of BuildReport/buildResults/ValidationReportNode/DialectInstance for one (nv,nw,ni) in [0,2]^3, symbolic profile name / shape names / schema IRIs (bytes), symbolic IncludeReportCreationTime, two clock values",
+		Harnesses: func(tier string) []HarnessSpec {
+			return []HarnessSpec{
+				{Pkg: "internal/validator", Fn: "VerifC03Report", Reach: []string{"encoded", "with-date", "without-date"}, Bounds: map[string]any{"results_per_level": "0..2", "string_bytes": "1..2 symbolic"}},
+				{Pkg: "internal/validator", Fn: "VerifC03EmptyResultSet", Reach: []string{"returned"}},
+			}
+		},
+		Assumptions: []string{"validator.Encode's json.Encoder is intercepted: the oracle inspects the structure handed to it; encoding/json is trusted to serialise it faithfully", "the level plumbing inside the generated Rego (which validation lands in which bucket) is not covered by this harness (regosym part C03b)"},
+		TrustedBase: []string{stdTrusted},
+	})
 }
